@@ -155,18 +155,26 @@ Theorem C25_refuted_update_response_forever :
 Proof. exact c25_forever_apiupdate. Qed.
 Print Assumptions C25_refuted_update_response_forever.
 
+(* PeerTableLockNotHeldAcrossWait, the fact about peermanager the theorems above rest on: a write to the message
+   manager's peer table (Connected, Disconnected, creation of a queue, a queue's shutdown callback) is enabled in
+   every state and changes nothing, because GetProcess returns before any reservation can wait.  All theorems
+   quantify over this label too; the driver performs such writes while a reservation is parked. *)
+Theorem C25_peer_table_write_never_blocks : forall c s p, step c s (Env_PeerTable p) = Some s.
+Proof. exact peer_table_write_never_blocks. Qed.
+Print Assumptions C25_peer_table_write_never_blocks.
+
 (* Non-vacuity.  The guard of C25_partial is satisfiable by a history in which peer 1 is stalled with a full
    allowance, has a paused response that is updated, unpaused without extensions and cancelled, and peer 2
    is answered; the same history with 7 bytes of update-hook extension data is not (and the model then
    leaves peer 2 unanswered until the stall ends). *)
 Example C25_guard_nonvacuous :
   let quiet := [wit_fill; wit_paused; [IUpdate 1 11 0 false false]; [IApiUnpause 11 0]; wit_probe] in
-  let c := {| sc_cfg := wit_cfg; sc_msgs := quiet; sc_probe_peer := 2; sc_probe_rid := 20; sc_api_sites := [];
+  let c := {| sc_cfg := wit_cfg; sc_msgs := map EvMsg quiet; sc_probe_peer := 2; sc_probe_rid := 20; sc_api_sites := [];
               sc_obs_accepted := true; sc_obs_answered := true; sc_obs_answered_after := true |} in
   forallb label_no_loop_ext (snd (run_msgs case_fuel wit_cfg (init wit_cfg) quiet)) = true /\
   model_verdict c = (true, true, true) /\
   forallb label_no_loop_ext (snd (run_msgs case_fuel wit_cfg (init wit_cfg) wit_update)) = false /\
-  model_verdict {| sc_cfg := wit_cfg; sc_msgs := wit_update; sc_probe_peer := 2; sc_probe_rid := 20; sc_api_sites := [];
+  model_verdict {| sc_cfg := wit_cfg; sc_msgs := map EvMsg wit_update; sc_probe_peer := 2; sc_probe_rid := 20; sc_api_sites := [];
                    sc_obs_accepted := false; sc_obs_answered := false; sc_obs_answered_after := true |}
     = (false, false, true).
 Proof. vm_compute. repeat split. Qed.
@@ -175,15 +183,26 @@ Proof. vm_compute. repeat split. Qed.
    premise of C25_workers_partial holds for this configuration. *)
 Example C25_cap_nonvacuous :
   let c1 := {| c_workers := 2; c_cap := 1; c_maxtotal := 100000; c_maxpeer := 1000; c_stalled := [1] |} in
-  model_verdict {| sc_cfg := c1; sc_msgs := wit_pool; sc_probe_peer := 2; sc_probe_rid := 20; sc_api_sites := [];
+  model_verdict {| sc_cfg := c1; sc_msgs := map EvMsg wit_pool; sc_probe_peer := 2; sc_probe_rid := 20; sc_api_sites := [];
                    sc_obs_accepted := true; sc_obs_answered := true; sc_obs_answered_after := true |} = (true, true, true) /\
-  model_verdict {| sc_cfg := wit_cfg; sc_msgs := wit_pool; sc_probe_peer := 2; sc_probe_rid := 20; sc_api_sites := [];
+  model_verdict {| sc_cfg := wit_cfg; sc_msgs := map EvMsg wit_pool; sc_probe_peer := 2; sc_probe_rid := 20; sc_api_sites := [];
                    sc_obs_accepted := true; sc_obs_answered := false; sc_obs_answered_after := true |} = (true, false, true) /\
   (length (c_stalled c1) * N.to_nat (c_cap c1) < N.to_nat (c_workers c1))%nat.
 Proof. vm_compute. repeat split. repeat constructor. Qed.
 
 (* The monitor of the property on an implementation observation. *)
 Example C25_monitor_rejects_unanswered :
-  scase_mon25 {| sc_cfg := wit_cfg; sc_msgs := wit_update; sc_probe_peer := 2; sc_probe_rid := 20; sc_api_sites := [];
+  scase_mon25 {| sc_cfg := wit_cfg; sc_msgs := map EvMsg wit_update; sc_probe_peer := 2; sc_probe_rid := 20; sc_api_sites := [];
                  sc_obs_accepted := false; sc_obs_answered := false; sc_obs_answered_after := true |} = false.
 Proof. reflexivity. Qed.
+
+(* Peer-table writes while an executor is parked on the stalled peer's reservation (cap 1, two executors): the probe of
+   peer 2 and a request of the never-seen peer 5 are answered. *)
+Example C25_table_writes_while_parked :
+  let c1 := {| c_workers := 2; c_cap := 1; c_maxtotal := 100000; c_maxpeer := 1000; c_stalled := [1] |} in
+  model_verdict {| sc_cfg := c1;
+                   sc_msgs := [EvMsg [INew 1 10 0 true false [(600, 0); (600, 0)]]; EvPeerTable 4; EvPeerTable 3;
+                               EvMsg [INew 5 30 0 true false [(50, 0)]]; EvPeerTable 5; EvMsg wit_probe];
+                   sc_probe_peer := 2; sc_probe_rid := 20; sc_api_sites := [];
+                   sc_obs_accepted := true; sc_obs_answered := true; sc_obs_answered_after := true |} = (true, true, true).
+Proof. vm_compute. reflexivity. Qed.
